@@ -15,6 +15,16 @@ CHECKS = {
              'the generated Float rendering against the compiled C); Spec/ConvRel.lean transcribes vnaconv(3); IEEE rounding not modelled; '
              'zi theorems for non-S inputs additionally assume the S representation exists.',
         ref='DESIGN.md §6 C04'),
+    'C15': dict(
+        technique='Lean 4 proof (invariant by induction over operation histories) on a hand model + line-protocol correspondence run against the compiled C + abstract-array oracle',
+        text='Concrete model of vnadata_t (allocation sizes + content, every access checked against the allocation). Theorems for every '
+             'history and every argument: the representation invariant holds (hidden storage holds 0/0/50), no operation reaches outside an '
+             'allocation, every index outside [0,n) incl. n is refused with no effect, a refused resize/set_type/add_frequency changes nothing, '
+             'resize keeps what stays visible and exposes initial values, both z0 modes. The model is executed against the real library on '
+             'bounded-exhaustive and random histories; both must equal an independent abstract array.',
+        note='Lean kernel + standard axioms; Model/VData.lean is hand-written and tied to the C only by the correspondence run (differential-testing strength); '
+             'fault-free allocation (faults are C12); UBSan nonnull-attribute (zero-length memcpy/memset on NULL) deliberately not counted.',
+        ref='DESIGN.md §6 C15'),
 }
 PENDING = {}
 ALL = ['C%02d' % i for i in range(1, 21)]
